@@ -8,7 +8,7 @@
 From Coq Require Import ZArith NArith List Bool String.
 From Coq Require Extraction.
 From Coq Require Import ExtrOcamlBasic ExtrOcamlString.
-From HV Require Import Base.Keccak Spec.StorageSpec Gen.GenStoreConsts Gen.GenHashes Model.StorageModel.
+From HV Require Import Base.Keccak Spec.StorageSpec Gen.GenStoreConsts Gen.GenHashes Gen.GenStoreAxioms Model.StorageModel.
 Import ListNotations.
 Open Scope Z_scope.
 
